@@ -185,7 +185,7 @@ def run_scenario(sc):
 
     if sc["decls"]:
         decls = [{'name': d["name"], 'type': pytype(d["typ"]), 'min': bound(d["mn"], 2), 'max': bound(d["mx"], 2),
-                  'default': bound(d["dflt"], 2)} for d in sc["decls"]]
+                  'default': (float(bound(d["dflt"], 2)) if d["typ"] == "float" else bound(d["dflt"], 2))} for d in sc["decls"]]
         S.hyperparameters = lambda self: [dict(d) for d in decls]
     if sc["dna"]:
         s = "".join(chr(g) for g in sc["dna"])
@@ -318,7 +318,7 @@ def run(ctx):
                          "repair): the model-level results of Dna.tla do not describe this decoder" % agree["neither"])
     ctx.log("R: %d declaration traces + %d seq traces, %d rejected; model agreement %r" % (n_decl, tid - n_decl, bad, agree))
     # ---------------- HpInjection: M + export + real backtests
-    genes = ctx.pick([40, 100, 119], [40, 41, 79, 100, 119])
+    genes = ctx.pick([40, 80, 119], [40, 79, 80, 81, 119])       # 80 = 'P' decodes to exactly 0 / 0.0 in the signed sets
     r = tlc.run("HpInjection", cfg_text=hp_cfg(genes, False), workers=1, coverage=True, timeout=300)
     ctx.add_tlc(r, "HpInjection precedence, genes %r" % (genes,))
     if r.violation:
